@@ -1401,6 +1401,7 @@ func (e *Env) RSearchTransparency() {
 	info := pkg.TypesInfo
 	c := e.Sib.Ctx[load.PkgDecorator]
 	n := 0
+	nCollect := 0
 	for _, fd := range load.AllFuncDecls(pkg) {
 		if fd.Body == nil || fd.Recv == nil || fd.Type.Results == nil {
 			continue
@@ -1470,6 +1471,66 @@ func (e *Env) RSearchTransparency() {
 			n++
 			undo := c.InstallReaching(fd)
 			defer undo()
+			// the other half of transparency: a fragment that an earlier search attached is never
+			// collected into the swept list again (it would be stored at a second decoration
+			// point and printed twice). Every append of the bound fragment in an arm that sees it
+			// as a comment or a line break is reached only when its Attached field is nil.
+			if boundName != "" && boundName != "_" {
+				for _, cl := range ts.Body.List {
+					cc := cl.(*ast.CaseClause)
+					if len(cc.List) != 1 {
+						continue
+					}
+					if _, tn := namedOf(info.TypeOf(cc.List[0])); tn != "commentFragment" && tn != "newlineFragment" {
+						continue
+					}
+					_, armType := namedOf(info.TypeOf(cc.List[0]))
+					ast.Inspect(cc, func(m ast.Node) bool {
+						if _, isLit := m.(*ast.FuncLit); isLit {
+							return false
+						}
+						as, ok := m.(*ast.AssignStmt)
+						if !ok || len(as.Rhs) != 1 {
+							return true
+						}
+						call, ok := as.Rhs[0].(*ast.CallExpr)
+						if !ok {
+							return true
+						}
+						if id, ok := call.Fun.(*ast.Ident); !ok || id.Name != "append" {
+							return true
+						} else if _, isBuiltin := info.Uses[id].(*types.Builtin); !isBuiltin {
+							return true
+						}
+						mentions := false
+						for _, a := range call.Args {
+							ast.Inspect(a, func(x ast.Node) bool {
+								if id, ok := x.(*ast.Ident); ok && id.Name == boundName {
+									mentions = true
+								}
+								return !mentions
+							})
+						}
+						if !mentions {
+							return true
+						}
+						nCollect++
+						key := fmt.Sprintf("%s: an attached %s is not collected again", load.FuncName(fd), armType)
+						cond, okc := pathCond(c, cc.Body, as)
+						if cond == "" {
+							cond = "true"
+						}
+						excl, dec := unsatWith(cond, boundName+".Attached != nil")
+						if !okc || !dec {
+							e.Run.Undecided("R-FRAG", key, e.Prog.Pos(as.Pos()), "condition not propositional: "+cond)
+							return true
+						}
+						e.Run.Check("R-FRAG", key, e.Prog.Pos(as.Pos()), excl,
+							"the fragment is appended to the swept list under `"+cond+"`, which a fragment that is already attached can satisfy: it is attached to a second decoration point and rendered twice")
+						return true
+					})
+				}
+			}
 			ast.Inspect(clause, func(m ast.Node) bool {
 				if _, isLit := m.(*ast.FuncLit); isLit {
 					return false
@@ -1504,6 +1565,7 @@ func (e *Env) RSearchTransparency() {
 		})
 	}
 	e.Run.Floor("R-FRAG", "comment arms of decoration searches", n, 2)
+	e.Run.Floor("R-FRAG", "collections of a swept comment or line break", nCollect, 2)
 }
 
 // markingFunc: a function or method of the package that stores `true` into a map[int]bool it is
